@@ -214,6 +214,42 @@ func runC17(r *Run) {
 		if n == 0 {
 			r.Pass("C17.3", "tmgossip.ChattyStrategy.broadcastUpdatesOnly(predicate)", w.Pos(fn.Pos()), "no cardinality of a cross-target union decides re-broadcast")
 		}
+		// the three parts of a view are diffed independently: one update may change several of them
+		// (the mirror coalesces accepted messages while the strategy is blocked), so every return that
+		// can report success has passed the test guarding each of the three broadcasts
+		for _, helper := range []string{"broadcastProposedBlocks", "broadcastPrevotes", "broadcastPrecommits"} {
+			calls := a.CallsTo("tmgossip.ChattyStrategy." + helper)
+			con := "tmgossip.ChattyStrategy.broadcastUpdatesOnly(independent:" + helper + ")"
+			if len(calls) != 1 {
+				r.Fail("C17.3", con, w.Pos(fn.Pos()), fmt.Sprintf("expected exactly one call of %s, found %d", helper, len(calls)))
+				continue
+			}
+			var guard *ssa.BasicBlock
+			for b := calls[0].Block().Idom(); b != nil; b = b.Idom() {
+				if _, ok := b.Instrs[len(b.Instrs)-1].(*ssa.If); ok {
+					guard = b
+					break
+				}
+			}
+			if guard == nil {
+				r.Pass("C17.3", con, w.InstrPos(calls[0]), "broadcast unconditionally")
+				continue
+			}
+			ok := true
+			where := ""
+			for _, ret := range a.Returns() {
+				if len(ret.Results) == 1 {
+					if k, isK := ret.Results[0].(*ssa.Const); isK && k.Value != nil && k.Value.ExactString() == "false" {
+						continue
+					}
+				}
+				if !(guard == ret.Block() || guard.Dominates(ret.Block())) {
+					ok = false
+					where = w.InstrPos(ret)
+				}
+			}
+			r.Check(ok, "C17.3", con, w.InstrPos(calls[0]), "every return that can report success must have evaluated the change test of "+helper+" (a return at "+where+" skips it: when two parts change in one update, the later part is never sent although the view is remembered as sent)")
+		}
 		// proposals: any change in count triggers a full re-send of the proposals
 		e, _ := a.IfEdges("(@len(p3.RoundView.ProposedHeaders) == @len(p2.RoundView.ProposedHeaders))", false, nil)
 		calls := a.CallsTo("tmgossip.ChattyStrategy.broadcastProposedBlocks")
